@@ -62,6 +62,50 @@ def main(c):
             classes[p] = cls
             c.count('class_' + cls)
         env = {'ASAN_OPTIONS': vlib.ASAN_ENV['ASAN_OPTIONS'].replace('max_allocation_size_mb=1024', 'max_allocation_size_mb=512')}
+        # ---- stage 2: coverage-guided generation (clang libFuzzer build of the same API program). The fuzzer only generates:
+        # every unit it adds to the corpus joins the replay lists below; artifacts are re-run one per process and classified.
+        fz = vlib.build_driver('fz_reader', 'fuzz')
+        fzd = os.path.join(base, 'fz'); cdir = os.path.join(fzd, 'corpus'); adir = os.path.join(fzd, 'art'); os.makedirs(cdir); os.makedirs(adir)
+        seednames = set()
+        for i, (d, f) in enumerate(corpus):
+            nm = hashlib.sha1(d).hexdigest(); seednames.add(nm); open(os.path.join(cdir, nm), 'wb').write(d)
+        for p in rng.sample(sorted(classes), min(400, len(classes))):
+            d = open(p, 'rb').read()
+            if 12 <= len(d) <= 65536:
+                nm = hashlib.sha1(d).hexdigest(); seednames.add(nm); open(os.path.join(cdir, nm), 'wb').write(d)
+        jobs = 48 if thorough else 16
+        runs = 400000 if thorough else 25000
+        fenv = dict(env, FZ_SEED=str(c.seed), ASAN_OPTIONS=env['ASAN_OPTIONS'] + ':handle_abort=1')
+        r = vlib.run([fz, cdir, '-runs=%d' % runs, '-jobs=%d' % jobs, '-workers=%d' % vlib.NCPU, '-max_len=65536', '-timeout=25', '-rss_limit_mb=4096', '-artifact_prefix=%s/' % adir,
+                      '-dict=%s' % os.path.join(vlib.REPO, 'fuzz', 'parquet.dict'), '-seed=%d' % (c.seed * 7 + 1), '-print_final_stats=1'], env=fenv, cwd=fzd, timeout=5 * 3600)
+        execd = 0
+        for lg in os.listdir(fzd):
+            if lg.startswith('fuzz-') and lg.endswith('.log'):
+                m = re.search(r'stat::number_of_executed_units: (\d+)', open(os.path.join(fzd, lg), errors='replace').read())
+                execd += int(m.group(1)) if m else 0
+        c.count('libfuzzer_executions', execd)
+        newunits = [fn for fn in sorted(os.listdir(cdir)) if fn not in seednames]
+        c.count('libfuzzer_new_corpus_units', len(newunits))
+        for k, fn in enumerate(newunits):
+            p = os.path.join(cdir, fn); lists[k % nsh].append(p); classes[p] = 'libfuzzer-corpus-unit'; c.count('class_libfuzzer-corpus-unit')
+        for fn in sorted(os.listdir(adir)):
+            ap = os.path.join(adir, fn); kind = fn.split('-')[0]
+            c.count('libfuzzer_artifacts_' + kind)
+            rr = vlib.run([fz, ap, '-timeout=25', '-rss_limit_mb=4096'], env=fenv, cwd=fzd, timeout=600)
+            err = rr.stderr.decode('latin1')
+            mc = re.search(r'^API-CONTRACT (\S+) (.*)$', err, re.M)
+            key, adv = vlib.classify_sanitizer(err, rr.returncode)
+            if mc:
+                c.violation(mc.group(1), 'libFuzzer artifact %s: %s' % (fn, mc.group(2)), files={'input.bin': open(ap, 'rb').read()})
+            elif key and 'HARNESS/' not in key:
+                c.violation(key, 'libFuzzer artifact %s (%d bytes)' % (fn, os.path.getsize(ap)), files={'input.bin': open(ap, 'rb').read()}, text=err)
+            elif kind == 'timeout' and 'ALARM' in err:
+                c.violation('hang:reader:libfuzzer', 'libFuzzer artifact %s needs more than 25 s' % fn, files={'input.bin': open(ap, 'rb').read()}, text=err)
+            elif key:
+                c.fail_harness('libFuzzer artifact %s: sanitizer report inside the harness: %s' % (fn, err[-500:]))
+            else:
+                # not reproducible one-per-process in the fuzz build: still goes through the gcc replay below
+                p = ap; lists[0].append(p); classes[p] = 'libfuzzer-artifact-' + kind; c.count('libfuzzer_artifacts_not_reproduced_in_isolation')
 
         def run_list(si):
             paths = lists[si]
@@ -124,9 +168,11 @@ def main(c):
               'boundary/inconsistent values, binary fields resized, list lengths changed, fields dropped, wire-type confusion, unknown struct/list/map nesting to 200 000 levels, same-length rewrites of page-header varints, '
               'level-length prefixes, page-body bytes, truncations, footer-length games, random bytes. Each input is opened through path, mmap and an exact-size heap copy and driven by a seeded API program (getters, schema '
               'walk, invalid indices, column readers with buffers sized from the schema, batch readers, statistics/pruning). Monitors: ASan, UBSan(bounds/null/pointer-overflow), LSan, 20 CPU-second timer per input, error-struct '
-              'and index-range assertions. distinct = sha1 of the input')
+              'and index-range assertions. Stage 2: a clang libFuzzer build of the same API program (open_buffer on an exact-size copy) explores from the valid files and a sample of the mutants with coverage feedback '
+              '(16 workers); every unit it adds to its corpus is replayed through the same three-path driver and its artifacts are re-run one per process and classified. distinct = sha1 of the input')
     c.assumptions = ['columns whose schema type_length is <= 0 or > 1 MiB are not read (no correct caller buffer exists)', 'allocations above 512 MiB fail as on a constrained machine',
                      'UBSan shift/overflow/alignment reports are advisory']
+    c.require('libfuzzer_executions', 100000); c.require('libfuzzer_new_corpus_units', 50)
     c.require('open_succeeded'); c.require('open_rejected'); c.require('column_readers_exercised'); c.require('batches_from_mutants'); c.require('rows_delivered_from_mutants'); c.require('seed_files', 10)
     opened = c.observed.get('open_succeeded', 0); rej = c.observed.get('open_rejected', 0)
     if opened + rej and opened < 0.2 * (opened + rej):
